@@ -22,7 +22,9 @@ def reply(lines=(), st="OK", code="", cargs=(), text=NOITEM, fam="status", tag="
 CODES = [("", ()), ("WARNINGS", ()), ("NONEXISTENT", ()), ("QUOTA/MAXSIZE", ()),
          ("TAG", (item("q", "t1"),)), ("TAG", (item("l", "t"),)), ("REFERRAL", (item("q", "sieve://x"),))]
 TEXTS = [NOITEM, item("q", "txt"), item("q", 'a "q" b'), item("q", ""), item("l", "txt"), item("l", ""),
-         item("l", "l1\r\nl2"), item("q", "é"), item("q", "near {2} over the {64+} limit")]
+         item("l", "l1\r\nl2"), item("q", "é"), item("q", "near {2} over the {64+} limit"),
+         # literal texts whose own last octets are line ends (multi-line error reports end every line with CRLF)
+         item("l", "line 1: x\r\nline 2: y\r\n"), item("l", "x\n"), item("l", "\r\n")]
 
 NAMES = ["a", "OK", "NO x", "{5}", 'a"b', "c\\d", "x ACTIVE", "é", "b"]
 BODIES = ["", "a", "a\r\n", "keep;\r\n", "OK x\r\n", "l1\r\nNO\r\n", "{5}\r\nabc\r\n", "BYE", '"q"\r\n', "x ACTIVE\r\n",
